@@ -6,6 +6,7 @@
 
 #include "vmd_protocol.h"
 #include <stdio.h>
+#include <stdlib.h>
 #include <unistd.h>
 #include <errno.h>
 #include <string.h>
@@ -16,10 +17,23 @@
  * ======================================================================== */
 
 void vmd_socket_path(char *buf, size_t size) {
+#ifdef NANOLANG_VERIF
+    /* Verification hook H3: per-run socket path so that checks talk to their own daemon */
+    {
+        const char *override = getenv("NANOLANG_VMD_SOCKET");
+        if (override && override[0]) { snprintf(buf, size, "%s", override); return; }
+    }
+#endif
     snprintf(buf, size, "/tmp/nanolang_vm_%u.sock", (unsigned)getuid());
 }
 
 void vmd_pid_path(char *buf, size_t size) {
+#ifdef NANOLANG_VERIF
+    {
+        const char *override = getenv("NANOLANG_VMD_PID");
+        if (override && override[0]) { snprintf(buf, size, "%s", override); return; }
+    }
+#endif
     snprintf(buf, size, "/tmp/nanolang_vm_%u.pid", (unsigned)getuid());
 }
 
